@@ -23,6 +23,12 @@ type Interpreter struct {
 func New(in io.Reader, out io.Writer) *Interpreter {
 	var i Interpreter
 	i.FS = defaultFS{}
+	if in == nil {
+		in = strings.NewReader("") // No user_input: it is at end of stream.
+	}
+	if out == nil {
+		out = io.Discard // No user_output: what is written to it is dropped.
+	}
 	i.SetUserInput(engine.NewInputTextStream(in))
 	i.SetUserOutput(engine.NewOutputTextStream(out))
 
